@@ -24,7 +24,8 @@ META = {
     "bounds": {"quick": "systems with <= 4 substances (3^n sign patterns x min comparisons paths each), incl. species without composition",
                "thorough": "systems with <= 6 substances"},
     "assumptions": [
-        "stubs on the captured instances: odesys.to_arrays/pre_process identity, odesys.f_cb returns arbitrary reals, "
+        "stubs on the captured instances: odesys.to_arrays/pre_process identity, odesys.f_cb returns arbitrary reals (division by a zero "
+        "derivative follows numpy float64 semantics, as for the arrays the real callback returns), "
         "rsys.upper_conc_bounds(y) -> the real method with dtype=object",
         "integration accuracy vs matrix exponentials / closed forms, non-negativity of integrated trajectories: delegated to "
         "LSODA/CVODE through pyodesys - not applicable (no symbolic value survives the C boundary)",
@@ -51,7 +52,7 @@ odesys.f_cb = lambda *a, **k: np.array(fv)      # stub stated in the obligation:
 h = extra["max_euler_step_cb"](0, dict(zip(names, yv)))
 ub = rsys.upper_conc_bounds(yv)
 bad = []
-if not (0 <= h <= 1): bad.append("h = %%r outside [0, 1]" %% h)
+if not (h == h and 0 <= h <= 1): bad.append("h = %%r outside [0, 1]" %% h)
 for n, yi, fi, u in zip(names, yv, fv, ub):
     new = yi + h * fi
     if new < -1e-12 * max(1, abs(yi)) or new > u * (1 + 1e-12) + 1e-300: bad.append("%%s: %%r + h*%%r = %%r outside [0, %%r]" %% (n, yi, fi, new, u))
@@ -96,7 +97,7 @@ def task_euler(systems):
             h, ub = p.value
             ht = lift(h)
             if ht is None:
-                return False
+                return False  # h is not a finite number (inf / nan): the step is useless or unsafe
             conds = [ht >= 0, ht <= (1 if not twin else z3.Q(1, 2))]
             for yi, fi, u in zip(y, f, ub):
                 new = yi.t + ht * fi.t
@@ -106,7 +107,7 @@ def task_euler(systems):
                     conds.append(new <= ut)
             return z3.And(*conds)
 
-        o = explore_and_prove(fn, assum, goal, max_paths=60000, deadline_s=400, timeout_ms=30000)
+        o = explore_and_prove(fn, assum, goal, max_paths=60000, deadline_s=400, timeout_ms=30000, numpy_div=True)
         res["obligations"] += o.obligations
         res["discharged"] += o.discharged
         res["queries"] += o.queries
@@ -119,7 +120,7 @@ def task_euler(systems):
             res["violations"].append(dict(key="euler_step:%s" % p.kind, soft=wrapper_exc(p.value), desc="system %s y=%s f=%s -> %r" % (rxn_strs, yv, fv, p.value),
                                           replay_src=REPLAY % dict(rxns=rxn_strs, y=pyrepr(yv), f=pyrepr(fv))))
         if tw is None:
-            ot = explore_and_prove(fn, assum, lambda p: goal(p, True), max_paths=60000, deadline_s=60, max_fail=1)
+            ot = explore_and_prove(fn, assum, lambda p: goal(p, True), max_paths=60000, deadline_s=60, max_fail=1, numpy_div=True)
             tw = "violated" if ot.failed else "passed"
     res["twin"] = tw or "n/a"
     res["sample"] = {"system": systems[0], "state": "symbolic y >= 0", "derivative": "arbitrary symbolic f"}
